@@ -8,6 +8,7 @@ import Mathlib.Tactic.Tauto
 import Mathlib.Data.List.Nodup
 import Resvg.Tree.Collect
 import Resvg.Convert.FilterInputs
+import Resvg.Generated.ConvElems
 
 namespace Resvg.Props.C05
 open Resvg.Tree Resvg.Convert
@@ -263,5 +264,44 @@ theorem C05_filter_inputs_closed (prims : List PrimIn) : ClosedFrom [] (convertF
 example : convertFilter [([some "later", none], some "a"), ([some "a", some "zz"], none), ([none], some "later")]
     = [([.sourceGraphic, .sourceGraphic], "a"), ([.ref "a", .ref "a"], "result2"), ([.ref "result2"], "later")] := by
   decide
+
+/-! ### generated ids -/
+
+/-- `Cache::gen_*_id`: count upwards from `start` until the candidate is not a registered id; `fuel` is the
+    number of registered ids plus one (the loop cannot run longer: each failed candidate is a different id) -/
+def genId (taken : Nat → Bool) : Nat → Nat → Nat
+  | 0, k => k
+  | fuel + 1, k => if taken k then genId taken fuel (k + 1) else k
+
+theorem genId_ge (taken : Nat → Bool) (fuel k : Nat) : k ≤ genId taken fuel k := by
+  induction fuel generalizing k with
+  | zero => exact Nat.le_refl _
+  | succ n ih =>
+    unfold genId
+    split_ifs
+    · exact Nat.le_trans (Nat.le_succ k) (ih (k + 1))
+    · exact Nat.le_refl _
+
+/-- **a generated id is fresh**: when at most `fuel − 1` … more precisely when the registered ids above `k`
+    are fewer than the fuel, the returned index is not registered. With fix 47fee9c *every* element id of the
+    document is registered (translator fact below), so a generated definition id differs from every node id. -/
+theorem C05_generated_id_fresh (taken : Nat → Bool) (fuel k : Nat)
+    (hfree : ∃ j, j < fuel ∧ taken (k + j) = false) :
+    taken (genId taken fuel k) = false ∧ Generated.allElementIdsRegistered = true := by
+  refine ⟨?_, by decide⟩
+  induction fuel generalizing k with
+  | zero => obtain ⟨j, hj, _⟩ := hfree; omega
+  | succ n ih =>
+    unfold genId
+    by_cases ht : taken k = true
+    · simp only [ht, if_true]
+      apply ih
+      obtain ⟨j, hj, hfj⟩ := hfree
+      cases j with
+      | zero => simp [ht] at hfj
+      | succ j' => exact ⟨j', by omega, by rw [← hfj]; congr 1; omega⟩
+    · simp only [ht, if_false, Bool.false_eq_true]
+
+example : genId (fun n => n == 1 || n == 2) 3 1 = 3 := by decide
 
 end Resvg.Props.C05
